@@ -354,7 +354,7 @@ fn op_region<M: GuestMemory>(h: &mut H, mem: &M, r: &mut Rng) {
                 h.fail("region-read/data", jobj! {"region" => i, "off" => off, "len" => len});
             }
         }
-        Err(GErr::InvalidBackendAddress) if n == 0 => {}
+        Err(_) if n == 0 => {}
         _ => {
             h.fail("region-access/result", jobj! {"region" => i, "off" => off, "len" => len, "region_len" => l as u64, "got" => J::s(match &res { Ok(k) => format!("Ok({})", k), Err(e) => gerr(e) })});
             return;
